@@ -248,7 +248,9 @@ func writeComputedFieldExpression(w *formatting.IndentedWriter, expression dsl.E
 			}
 
 			requiresParentheses := false
-			if l, ok := t.Left.(*dsl.BinaryExpression); ok && l.Operator.Precedence() < t.Operator.Precedence() {
+			if l, ok := t.Left.(*dsl.BinaryExpression); ok && (l.Operator.Precedence() < t.Operator.Precedence() ||
+				// ** associates to the right: (a ** b) ** c needs its parentheses
+				(l.Operator.Precedence() == t.Operator.Precedence() && t.Operator == dsl.BinaryOpPow)) {
 				requiresParentheses = true
 			}
 
@@ -278,7 +280,9 @@ func writeComputedFieldExpression(w *formatting.IndentedWriter, expression dsl.E
 			w.WriteString(" ")
 
 			requiresParentheses = false
-			if r, ok := t.Right.(*dsl.BinaryExpression); ok && r.Operator.Precedence() < t.Operator.Precedence() {
+			if r, ok := t.Right.(*dsl.BinaryExpression); ok && (r.Operator.Precedence() < t.Operator.Precedence() ||
+				// operators of equal precedence associate to the left (except **): a - (b - c) needs its parentheses
+				(r.Operator.Precedence() == t.Operator.Precedence() && t.Operator != dsl.BinaryOpPow)) {
 				requiresParentheses = true
 			}
 
